@@ -53,7 +53,7 @@ ITEMS = [
      "model_when": "(counter <? 4294967296) && (lvl <? 8) && (kt <? 4) && (ext <? 2) && (res <? 4)", "gen": gen_nonce,
      "live": FAKE + ("def live(a):\n"
                      "    h = _B(a['sec'], fc=a['counter'], nwk_seclevel=a['lvl'], key_type=a['kt'], extended_nonce=a['ext'], reserved1=a['res'])\n"
-                     "    return MOD.CryptoManager.generateNonce(None, _P(h, b''))\n")},
+                     "    return MOD.CryptoManager.generateNonce(OBJ(MOD.CryptoManager), _P(h, b''))\n")},
     {"path": SRC, "qualname": "CryptoManager.generateAuth",
      "spec": {"name": "generate_auth",
               "inputs": [["self.encryption", "enc", "bool"], ["raw(packet[self.base_class:])", "rawb", "bytes"],
@@ -61,7 +61,7 @@ ITEMS = [
      "model": "if enc then firstn (length rawb - length pdata - length pmic) rawb else firstn (length rawb - length pmic) rawb",
      "gen": gen_auth,
      "live": FAKE + ("def live(a):\n"
-                     "    return MOD.CryptoManager.generateAuth(NS(encryption=a['enc'], base_class=None), _P(None, a['rawb'], a['pdata'], a['pmic']))\n")},
+                     "    return MOD.CryptoManager.generateAuth(OBJ(MOD.CryptoManager, encryption=a['enc'], base_class=None), _P(None, a['rawb'], a['pdata'], a['pmic']))\n")},
     {"path": SRC, "qualname": "CryptoManager.extractCiphertextPayload",
      "spec": {"name": "extract_ciphertext_payload",
               "inputs": [["self.encryption", "enc", "bool"], ["self.patched", "patched", "bool"], ["self.M", "m", "nat"],
@@ -71,6 +71,6 @@ ITEMS = [
                "else ([], py_take_last m rawb)"),
      "gen": gen_extract,
      "live": FAKE + ("def live(a):\n"
-                     "    s = NS(encryption=a['enc'], patched=a['patched'], M=a['m'], base_class=None)\n"
+                     "    s = OBJ(MOD.CryptoManager, encryption=a['enc'], patched=a['patched'], M=a['m'], base_class=None)\n"
                      "    return MOD.CryptoManager.extractCiphertextPayload(s, _P(NS(data=a['sdata']), a['rawb'], a['pdata'], a['pmic']))\n")},
 ]
